@@ -76,6 +76,30 @@ func funcName(f *ssa.Function) string {
 
 // shorten strips the module path from rendered names.
 func shorten(s string) string {
+	s = shortenRaw(s)
+	if len(identSubst) > 0 {
+		s = applySubst(s, identSubst)
+	}
+	for _, r := range renameSubst {
+		for from := 0; ; {
+			i := strings.Index(s[from:], r[0])
+			if i < 0 {
+				break
+			}
+			i += from
+			end := i + len(r[0])
+			if end < len(s) && (s[end] == '_' || s[end] >= '0' && s[end] <= '9' || s[end] >= 'a' && s[end] <= 'z' || s[end] >= 'A' && s[end] <= 'Z') {
+				from = end
+				continue
+			}
+			s = s[:i] + r[1] + s[end:]
+			from = i + len(r[1])
+		}
+	}
+	return s
+}
+
+func shortenRaw(s string) string {
 	s = strings.ReplaceAll(s, modPath+"/pkg/", "")
 	s = strings.ReplaceAll(s, modPath+"/", "fingerproxy/")
 	s = strings.ReplaceAll(s, modPath, "fingerproxy")
@@ -175,13 +199,20 @@ func namedOf(t types.Type) *types.Named {
 }
 
 func typeName(t types.Type) string {
-	return types.TypeString(t, func(p *types.Package) string { return p.Name() })
+	s := types.TypeString(t, func(p *types.Package) string { return p.Name() })
+	if len(identSubst) > 0 {
+		s = applySubst(s, identSubst)
+	}
+	return s
 }
 
 func fieldName(structT types.Type, idx int) string {
 	st, ok := deref(structT).Underlying().(*types.Struct)
 	if !ok || idx >= st.NumFields() {
 		return fmt.Sprintf("f%d", idx)
+	}
+	if a, ok := fieldAlias[st.Field(idx)]; ok {
+		return a
 	}
 	return st.Field(idx).Name()
 }
@@ -259,6 +290,9 @@ func (e *exprCtx) expr(v ssa.Value) string {
 		}
 		return "fv:" + x.Name()
 	case *ssa.Global:
+		if len(identSubst) > 0 {
+			return applySubst(x.Pkg.Pkg.Name()+"."+x.Name(), identSubst)
+		}
 		return x.Pkg.Pkg.Name() + "." + x.Name()
 	case *ssa.Function:
 		return "func:" + funcName(x)
